@@ -101,6 +101,29 @@ def run(prog, R):
                 continue
             sinks = forward_sinks(body, t.dest.local, follow_refs=True, through=PROPAGATORS)
             ret = any(k == 'ret' and not via for (k, n, i, via) in sinks)
+            if not ret:
+                # the error handed to a private function that wraps it into the reader's error (`return Err(self.discard_buffer(e))`
+                # with `fn discard_buffer(&mut self, e: io::Error) -> Error`), whose result is returned
+                for (k, n, i, via) in sinks:
+                    hb_ = prog.local_callee_body(n.callee) if (k == 'call' and n.callee is not None) else None
+                    def wraps(hb, pidx):
+                        rs_ = roots_of(hb, Place({'l': 0, 'p': []}))
+                        if not rs_:
+                            return False
+                        for r_ in rs_:
+                            if r_[0] == 'agg' and r_[1].rv.j.get('variant') == 'Io' and r_[1].rv.ops:
+                                src_ = roots_of(hb, r_[1].rv.ops[0])
+                            elif r_[0] == 'call' and r_[1].callee and r_[1].callee.path in ('std::convert::From::from', 'std::convert::Into::into') and r_[1].args:
+                                src_ = roots_of(hb, r_[1].args[0])
+                            else:
+                                return False
+                            if not (src_ and all(q_[0] == 'arg' and q_[1] == pidx and not q_[-1] for q_ in src_)):
+                                return False
+                        return True
+                    if hb_ is not None and hb_.local_tys[0].strip() in ('fasta::Error', 'fastq::Error') and n.dest.is_local() and wraps(hb_, i + 1):
+                        s2 = forward_sinks(body, n.dest.local, follow_refs=True, through=PROPAGATORS)
+                        if any(k2 == 'ret' for (k2, n2, i2, v2) in s2):
+                            ret = True
             drops = [n for (k, n, i, via) in sinks if k == 'drop' and not via]
             # a drop on the arm of a match where the value is known to be Ok (`match r { Ok(false) => {}, other => return other }`)
             # discards no error
@@ -114,6 +137,13 @@ def run(prog, R):
                                 for v_, tg_ in tt_.targets:
                                     if v_ == 0:
                                         ok_arm.add(tg_)
+                            # `if res.is_ok() { res = next_step() }`: the value overwritten there is an Ok
+                            if r_[0] == 'call' and r_[1].callee is not None and r_[1].callee.path in ('std::result::Result::is_ok', 'std::result::Result::is_err') and r_[1].args \
+                                    and any(d_[0] == 'call' and d_[1] is t for d_ in data_deps(body, r_[1].args[0])):
+                                if r_[1].callee.path.endswith('is_ok'):
+                                    ok_arm.add(tt_.otherwise)
+                                else:
+                                    ok_arm |= set(tg_ for v_, tg_ in tt_.targets if v_ == 0)
                 def on_ok_arm(term_):
                     bx = [x_ for x_ in body.cfg.reachable if body.blocks[x_].term is term_]
                     return bool(bx) and any(body.cfg.dominates(o_, bx[0]) for o_ in ok_arm)
